@@ -149,6 +149,19 @@ def main(tier, replay=None):
         nf = {"-": "d", "d": "dr", "dr": "d", "s": "-", "ds": "d"}[f]
         v4 = dict(st, o=[(p, nf, s)] + st["o"][1:]); pairs.append((base, v4)); kinds.append("flag")
         v5 = dict(st, o=st["o"] + [("zz_added_output", "-", "")]); pairs.append((base, v5)); kinds.append("add")
+        # command edits that only change INNER white space (still another command: quoting, line structure)
+        inner = st["cmd"].strip()
+        for old_ws, new_ws in ((" ", "  "), (" ", "\t"), (" ", "\n"), ("\n", " ")):
+            if old_ws in inner:
+                k_ = inner.index(old_ws)
+                v6 = dict(st, cmd=inner[:k_] + new_ws + inner[k_ + len(old_ws):])
+                if v6["cmd"].strip() != inner:
+                    pairs.append((dict(st, cmd=inner), v6)); kinds.append("cmd-whitespace")
+                break
+        # a path edit that only adds a blank at its edge is another path
+        p0, f0, s0 = st["o"][0]
+        if p0 and clean(p0 + " ") != clean(p0):
+            v7 = dict(st, o=[(p0 + " ", f0, s0)] + st["o"][1:]); pairs.append((base, v7)); kinds.append("path-edge-blank")
     flat = []
     for a, b in pairs:
         flat += [line(a), line(b)]
